@@ -797,7 +797,7 @@ class Interp:
 
     def iter_view(self, st, it):
         """Something with seq_len / seq_get."""
-        if isinstance(it, (tuple, SSeq, SRange, LRef)) or type(it).__name__ == "SText":
+        if isinstance(it, (tuple, SSeq, SRange, LRef)) or getattr(it, "is_text", False):
             return it
         if isinstance(it, list):
             return tuple(it)
@@ -985,6 +985,8 @@ class Interp:
                 raise PyRaise(SExc(TypeError, ex.args)) from None
         if isinstance(a, SSlice) or isinstance(b, SSlice):
             raise PyRaise(SExc(TypeError, ("unsupported operand type(s) for slice",)))
+        if getattr(a, "is_text", False) or getattr(b, "is_text", False) or (isinstance(a, (str, bytes)) or isinstance(b, (str, bytes))) and isinstance(op, ast.Mult):
+            return self.text_binop(st, op, a, b)
         seq_types = (tuple, SSeq, LRef)
         if isinstance(a, seq_types) or isinstance(b, seq_types):
             return self.seq_binop(st, op, a, b)
@@ -1027,6 +1029,24 @@ class Interp:
             st.assume(z3.And(t.f(z3.IntVal(0)) == a.e, t.f(z3.IntVal(1)) == b.e))
             return t
         raise Unsupported(f"binary op {type(op).__name__} on {type(a).__name__}, {type(b).__name__}")
+
+    def text_binop(self, st, op, a, b):
+        """str/bytes operators on modelled texts (pyvc/text.py, derived texts): `+` between two texts of one kind
+        (TypeError otherwise, as CPython), `*` between a one-element text and an int."""
+        from .text import SConcat, SRepeat, as_text
+
+        if isinstance(op, ast.Add):
+            ta, tb = as_text(a), as_text(b)
+            if ta is None or tb is None or ta.kind != tb.kind:
+                raise PyRaise(SExc(TypeError, ("can only concatenate str to str / bytes to bytes",)))
+            return SConcat(ta, tb)
+        if isinstance(op, ast.Mult):
+            t, n = (a, b) if as_text(a) is not None else (b, a)
+            t = as_text(t)
+            if t is None or not is_num(n) or isinstance(n, SReal):
+                raise PyRaise(SExc(TypeError, ("can't multiply sequence by non-int",)))
+            return SRepeat(t, n)
+        raise Unsupported(f"binary op {type(op).__name__} on a text")
 
     def bitop(self, st, t, a, b):
         """Bit operations on non-negative ints, in integer arithmetic:
@@ -1172,6 +1192,16 @@ class Interp:
                         r = both(r, self.equals(st, Q.seq_get(x, j), c))
                     return r
             raise Unsupported("equality of symbolic sequences")
+        if getattr(a, "is_text", False) or getattr(b, "is_text", False):
+            # a modelled text against a text or a str/bytes literal: same kind, same length, same elements;
+            # against anything else: unequal (as CPython: str == int is False)
+            from .text import as_text, text_eq
+
+            if as_text(a) is None or as_text(b) is None:
+                if isinstance(a, Sym) and isinstance(b, Sym):
+                    raise Unsupported(f"equality of a text and {type(b if getattr(a, 'is_text', False) else a).__name__}")
+                return False
+            return text_eq(a, b)
         for x, y in ((a, b), (b, a)):
             # an opaque individual compared with a plain constant: the protocol may answer (`eq_const`), e.g. an
             # abstract key event that may or may not be the string "esc"; without the hook: unequal, as before
@@ -1227,6 +1257,22 @@ class Interp:
             r = cseq.contains_model(st, st.force(x))
             if r is not NotImplemented:
                 return r
+        if getattr(x, "is_text", False) or getattr(container, "is_text", False):
+            # substring test with a needle of exactly one element (proved on this path): some element equals it
+            from .text import as_text, elem_eq, text_has
+
+            needle, hay = as_text(st.force(x)), as_text(container)
+            if needle is None or hay is None or needle.kind != hay.kind:
+                raise Unsupported("'in' between a text and a non-text / a text of the other kind")
+            n1 = needle.length
+            if not (isinstance(n1, int) and n1 == 1):
+                r0, _m = st._check(V._z(n1) != 1, st.cfg.branch_timeout_ms)
+                if r0 != z3.unsat:
+                    raise Unsupported("substring test with a needle whose length is not known to be 1")
+            e = needle.get(0)
+            if isinstance(hay.length, int):
+                return either(False, *[elem_eq(hay.get(j), e) for j in range(hay.length)])
+            return text_has(hay, e)
         if isinstance(container, (LRef, SSeq)) and getattr(self.task.c, "abstract_contains", False):
             # membership in a sequence of symbolic length, left unspecified (the contract does not depend on it)
             return st.fresh_bool("contains")
@@ -1250,6 +1296,9 @@ class Interp:
             return n > 0 if isinstance(n, int) else st.branch(V._cmp(">", n, 0))
         if isinstance(v, DRef):
             return bool(v.d)
+        if getattr(v, "is_text", False):
+            n = v.length
+            return n > 0 if isinstance(n, int) else st.branch(V._cmp(">", n, 0))
         if isinstance(v, ModelObj):
             return self.truth(st, v.py_truth(st))
         if isinstance(v, SObj):
@@ -1283,7 +1332,7 @@ class Interp:
             return self.obj_getattr(st, obj, name)
         if isinstance(obj, SOpaque):
             return self.task.opaque_getattr(self, st, obj, name)
-        if type(obj).__name__ == "SText" or isinstance(obj, ModelObj):
+        if getattr(obj, "is_text", False) or isinstance(obj, ModelObj):
             return Method(obj, name)
         if isinstance(obj, (LRef, SSlice, SSeq, DRef, SRange)):
             if isinstance(obj, SSlice) and name in ("start", "stop", "step"):
@@ -1330,6 +1379,10 @@ class Interp:
             raw = inspect.getattr_static(obj.cls, name)
             if isinstance(raw, (int, str, bytes, tuple, frozenset, type(None), enum.Enum, bool)):
                 return raw
+            if isinstance(raw, property):
+                acc = self.property_accessor(st, cls, name, 0)
+                if acc is not None:
+                    return self.call_fnval(st, acc.bind(obj), [], {})
             if obj.base_list and hasattr(list, name):
                 return Method(obj, name)
             v = self.task.missing_field(self, st, obj, name)
@@ -1338,6 +1391,25 @@ class Interp:
             raise Unsupported(f"attribute {name} of {obj.cls.__name__} (not a repository function)")
         fv = FnVal(ref, None, None, cls)
         return self.decorate_method(st, fv, obj)
+
+    def property_accessor(self, st, cls, name, which):
+        """The getter (which=0) / setter (which=1) of a property defined by `name = property(fget, fset)` in the body
+        of repository class `cls` (source.class_property_assign), as an unbound FnVal; None if there is none."""
+        m = SRC.module_of_real(cls.__module__)
+        if m is None:
+            return None
+        pa = SRC.class_property_assign(m, cls.__qualname__, name)
+        if pa is None or pa[which] is None:
+            return None
+        node = pa[which]
+        if isinstance(node, ast.Lambda):
+            fv = self.e_Lambda(st, node, Frame(None, m))
+            fv.ref.qualname = f"{cls.__qualname__}.{name}.<lambda@{node.lineno}>"
+            return fv
+        ref = SRC.class_member(m, cls.__qualname__, node.id)
+        if ref is None:
+            raise Unsupported(f"property {cls.__qualname__}.{name}: accessor {node.id} is not a function of the class body")
+        return FnVal(ref, None, None, cls)
 
     def decorate_method(self, st, fv: FnVal, obj):
         """Apply the decorators of a method definition (e.g. `_call_modified`), then bind."""
@@ -1371,6 +1443,12 @@ class Interp:
                 self.call_fnval(st, FnVal(ref, None, obj, cls), [value], {})
                 return
             if cls is not None and ref is None and isinstance(inspect.getattr_static(obj.cls, name, None), property):
+                acc = self.property_accessor(st, cls, name, 1)
+                if acc is not None:
+                    self.call_fnval(st, acc.bind(obj), [value], {})
+                    return
+                if acc is None and self.property_accessor(st, cls, name, 0) is not None:
+                    raise PyRaise(SExc(AttributeError, (f"property {name} has no setter",)))
                 m = SRC.module_of_real(cls.__module__)
                 if m is not None and SRC.class_has_property(m, cls.__qualname__, name):
                     raise PyRaise(SExc(AttributeError, (f"property {name} has no setter",)))
